@@ -86,6 +86,121 @@ def classify(out):
     return kinds
 
 
+# ---- who the diagnostics are about (second level of the correspondence) ------------------------------
+
+def _short(x):
+    """`&mut app::p3::T7` -> `T7`; `app::p3::PathParams<..>` is left to the caller."""
+    x = x.strip().lstrip("&").strip()
+    if x.startswith("mut "):
+        x = x[4:]
+    x = re.sub(r"<.*$", "", x) if not x.startswith("pavex::request::path::PathParams") else x
+    return x.split("::")[-1] if "<" not in x else x
+
+
+IDENT = {
+    "missing": r"I can't find a constructor for `([^`]+)`\. I need an instance of `[^`]+` to invoke your [a-z\- ]+, `([^`]+)`",
+    "mut_singleton": r"mutable reference to a singleton \(`([^`]+)`\) as an input parameter to `([^`]+)`",
+    "mut_transient": r"mutable reference to a transient type \(`([^`]+)`\) as an input parameter to `([^`]+)`",
+    "mut_cloneable": r"You can't inject `([^`]+)` as an input parameter to `([^`]+)`",
+    "mut_input": r"You can't inject a mutable reference as an input parameter to `([^`]+)`",
+    "singleton_dep": r"your singleton `([^`]+)` depends on `([^`]+)`",
+    "singleton_once": r"You registered the same constructor for `([^`]+)`",
+    "singleton_multi": r"multiple constructors for the same singleton type, `([^`]+)`",
+    "not_send": r"`([^`]+)` doesn't implement the `core::marker::Send` trait",
+    "not_sync": r"`([^`]+)` doesn't implement the `core::marker::Sync` trait",
+    "singleton_by_value": r"`([^`]+)` consumes `([^`]+)` by value",
+    "clone_not_clone": r"`([^`]+)` doesn't implement the `Clone` trait, but its constructor, `([^`]+)`",
+    "observer_fallible": r"`([^`]+)` violates this constraints! It depends on .*which is built with `([^`]+)`, a fallible constructor",
+    "route_method_conflict": r"different request handlers for `([A-Z]+) ([^`]+)` requests",
+    "route_path_conflict": r"This route path, `([^`]+)`, conflicts with the path of another route you already registered, `([^`]+)`",
+    "path_param": r"extract path parameters using `PathParams<([^`>]+)>`\. .*?(?:that appear in|path parameters in) `([^`]+)`",
+}
+
+
+def identify_impl(out):
+    """{(kind, subject..)} read off pavexc's reports; kinds without a pattern keep the bare kind."""
+    res = set()
+    for rep in error_reports(out):
+        kind = None
+        for k, pat in PATTERNS:
+            if re.search(pat, rep):
+                kind = k
+                break
+        if kind is None:
+            res.add(("other", rep[:60]))
+            continue
+        if kind == "cycle":
+            fns = re.findall(r"- `([^`]+)` depends on", rep)
+            res.add(("cycle", frozenset(_short(f) for f in fns)))
+            continue
+        m = re.search(IDENT[kind], rep) if kind in IDENT else None
+        if not m:
+            res.add((kind, "?"))
+            continue
+        g = [x for x in m.groups()]
+        if kind == "route_method_conflict":
+            res.add((kind, g[0], g[1]))
+        elif kind == "route_path_conflict":
+            res.add((kind, frozenset(g)))
+        elif kind == "path_param":
+            res.add((kind, _short(g[0]), g[1]))
+        else:
+            res.add((kind,) + tuple(_short(x) for x in g))
+    return res
+
+
+def identify_model(adb, mout):
+    """the same set derived from the model's diagnostics [kind, a, b] on the abstract database."""
+    comps, types, routes = adb["comps"], adb["types"], adb["routes"]
+    fn = lambda i: comps[i]["fn"]
+    ty = lambda t: _short(types[t]["name"]) if not types[t]["name"].startswith("PathParams<") else "PathParams"
+    raw_paths = []
+    for r in routes:
+        if r["path"] not in [q for q, _ in raw_paths]:
+            raw_paths.append((r["path"], r["raw"]))
+    meth = {k: m for k, m in enumerate(gen_planted.METHODS)}
+    extra = []
+    for r in routes:
+        for m in r["methods"]:
+            if m not in meth.values() and m not in extra:
+                extra.append(m)
+    for k, m in enumerate(extra):
+        meth[len(gen_planted.METHODS) + k] = m
+    res = set()
+    for kind, a, b in mout["check"]:
+        if kind in ("missing", "mut_singleton", "mut_transient", "mut_cloneable"):
+            res.add((kind, ty(comps[a]["ins"][b][0]), fn(a)))
+        elif kind == "mut_input":
+            res.add((kind, fn(a)))
+        elif kind == "singleton_dep":
+            res.add((kind, ty(comps[a]["out"]), ty(comps[b]["out"])))
+        elif kind in ("singleton_once", "singleton_multi"):
+            res.add((kind, ty(a)))
+        elif kind in ("not_send", "not_sync"):
+            res.add((kind, ty(comps[a]["out"])))
+        elif kind == "singleton_by_value":
+            res.add((kind, fn(a), ty(comps[a]["ins"][b][0])))
+        elif kind == "clone_not_clone":
+            res.add((kind, ty(comps[a]["out"]), fn(a)))
+        elif kind == "observer_fallible":
+            res.add((kind, fn(a), fn(b)))
+        elif kind == "route_method_conflict":
+            res.add((kind, meth.get(b, "?"), raw_paths[a][1]))
+        elif kind == "route_path_conflict":
+            other = [q["raw"] for q in routes[:a] if q["path"] != routes[a]["path"] and same_shape(q["path"], routes[a]["path"])]
+            res.add((kind, frozenset([routes[a]["raw"]] + other[:1])))
+        elif kind == "path_param":
+            inner = types[b]["name"][len("PathParams<"):-1]
+            res.add((kind, inner, routes[a]["raw"]))
+        elif kind == "cycle":
+            pass
+        else:
+            res.add((kind, "?"))
+    for cyc in mout.get("cycle_nodes", []):
+        res.add(("cycle", frozenset(fn(i) for i in cyc)))
+    return res
+
+
 def expected_kinds_ok(rule, impl_kinds):
     exp = gen_planted.RULES[rule]
     return all(k in impl_kinds for k in exp)
@@ -196,7 +311,7 @@ def match_known(R, o, adb, why):
 def run(R):
     R.assumptions += [
         "the abstract database is derived from the generator's spec (tools/gen_planted.py adb_of), not from pavexc's internal tables; generic constructors, prebuilt/config types and inputs of error handlers are outside the model",
-        "diagnostics are compared by kind (the message classes of tools/checks/c08.py PATTERNS), not by text or count",
+        "diagnostics are compared as sets of (kind, subjects): which component / type / route each report is about (tools/checks/c08.py PATTERNS, IDENT), not by text or multiplicity",
         "toolchain shim: installed nightly (rustdoc JSON format 57) instead of pavexc's pinned nightly",
     ]
     lean_ok, lrep = pxvlib.lean_obligations(R, ["Pxv.Thm.C08"])
@@ -221,6 +336,8 @@ def run(R):
 
     hist, per_rule, depth_hist, nest_hist = {}, {}, {}, {}
     n_fail, disagreements, nontrivial = 0, [], set()
+    ident_compared = 0
+    count_mismatch = []   # informational: pavexc reports a cycle once per call graph that contains it
     for k, (o, rule, adb) in enumerate(cases):
         impl_kinds = classify(o["out"])
         ik = set(impl_kinds)
@@ -276,6 +393,17 @@ def run(R):
             if verdict in ("rejected", "accepted") and mk != ik:
                 disagreements.append({"program": o["name"], "rule": rule, "model": sorted(mk), "pavexc": sorted(ik),
                                       "model_out": mouts[k], "abstract_db": adb, "failed_oracle": bool(why)})
+            elif verdict == "rejected" and not rule.startswith("corpus:"):
+                # second level: the diagnostics are about the same components / types / routes
+                im, mm = identify_impl(o["out"]), identify_model(adb, mouts[k])
+                ident_compared += 1
+                import collections
+                if collections.Counter(d[0] for d in mouts[k]["check"]) != collections.Counter(impl_kinds):
+                    count_mismatch.append({"program": o["name"], "rule": rule, "model": dict(collections.Counter(d[0] for d in mouts[k]["check"])),
+                                           "pavexc": dict(collections.Counter(impl_kinds))})
+                if im != mm:
+                    disagreements.append({"program": o["name"], "rule": rule, "level": "subjects", "pavexc_only": sorted(map(str, im - mm)),
+                                          "model_only": sorted(map(str, mm - im)), "abstract_db": adb, "failed_oracle": bool(why)})
         elif model_ok:
             disagreements.append({"program": o["name"], "rule": rule, "model": "no answer"})
     # the model on its corpus
@@ -296,6 +424,8 @@ def run(R):
     R.coverage["per_rule"] = per_rule
     R.coverage["planted_depth_histogram"] = depth_hist
     R.coverage["victim_nesting_level_histogram"] = nest_hist
+    R.coverage["programs_compared_by_subject"] = ident_compared
+    R.coverage["report_multiplicity_differences"] = {"n": len(count_mismatch), "first": count_mismatch[:3]}
     R.coverage["samples"] = [{"program": o["name"], "rule": rule, "pavexc_kinds": sorted(set(classify(o["out"]))), "planted": (o["spec"] or {}).get("planted")}
                              for o, rule, _ in cases[:4]]
     pure = [d for d in disagreements if not d.get("failed_oracle")] + h_dis
